@@ -4,10 +4,10 @@ package c01
 import (
 	"context"
 
-	schemaClient "github.com/sdcio/data-server/pkg/datastore/clients/schema"
-	"github.com/sdcio/data-server/pkg/config"
-	"github.com/sdcio/data-server/pkg/datastore/target"
 	"fmt"
+	"github.com/sdcio/data-server/pkg/config"
+	schemaClient "github.com/sdcio/data-server/pkg/datastore/clients/schema"
+	"github.com/sdcio/data-server/pkg/datastore/target"
 	"os"
 	"strings"
 	"testing"
@@ -47,6 +47,9 @@ var prop = vlib.Prop[*vlib.HistCase]{
 			c.GNMI = rapid.SampledFrom([]string{"proto", "json", "json_ietf"}).Draw(t, "gnmi-encoding")
 			c.Loop = rapid.Bool().Draw(t, "closed-loop")
 		}
+		if os.Getenv("VERIF_C01_NCLOOP") != "" {
+			return vlib.GenNCLoop(t)
+		}
 		if os.Getenv("VERIF_C01_LOOP") != "" {
 			c = vlib.GenHistCase(t, vlib.HistGenOpts{Universe: uniLoop, MinSteps: 1, MaxSteps: 8, WithInit: true, AllowOrphan: true})
 			c.GNMI = rapid.SampledFrom([]string{"proto", "json", "json_ietf"}).Draw(t, "gnmi-encoding-forced")
@@ -61,6 +64,9 @@ var prop = vlib.Prop[*vlib.HistCase]{
 
 // Exec runs one history and checks the C01 oracle after every successful step.
 func Exec(c *vlib.HistCase) (nontrivial bool, labels []string, fail *vlib.Failure) {
+	if strings.HasPrefix(c.GNMI, "nc:") {
+		return vlib.ExecNCLoop(c, "C01", false)
+	}
 	ctx := context.Background()
 	env := vlib.MustEnv()
 	var tee *vlib.GNMITee
@@ -80,7 +86,7 @@ func Exec(c *vlib.HistCase) (nontrivial bool, labels []string, fail *vlib.Failur
 			return tee
 		}
 		if c.Loop {
-			opts.DS.Sync = loopSyncConfig(c.GNMI)
+			opts.DS.Sync = vlib.GNMILoopSyncConfig(c.GNMI)
 		}
 	}
 	h, err := vlib.NewHistEnv(ctx, env, c, opts)
@@ -99,14 +105,14 @@ func Exec(c *vlib.HistCase) (nontrivial bool, labels []string, fail *vlib.Failur
 	if len(c.Initial) > 0 {
 		lab["initial-running"] = true
 	}
-	var lp *loop
+	var lp *vlib.GNMILoop
 	if tee != nil && c.Loop {
 		lab["closed-loop-real-sync"] = true
 		var f *vlib.Failure
-		lp, f = startLoop(h, tee, c.GNMI)
-		defer lp.stop()
+		lp, f = vlib.StartGNMILoop(h, tee, c.GNMI)
+		defer lp.Stop()
 		if f == nil {
-			f = lp.checkStore(h, "initial sync")
+			f = lp.CheckStore(h, "initial sync")
 		}
 		if f != nil {
 			return nontrivial, keys(lab), f
@@ -139,16 +145,12 @@ func Exec(c *vlib.HistCase) (nontrivial bool, labels []string, fail *vlib.Failur
 			}
 		}
 		if lp != nil {
-			if f := lp.checkStore(h, fmt.Sprintf("step %d (%s)", i, describe(res))); f != nil {
+			if f := lp.CheckStore(h, fmt.Sprintf("step %d (%s)", i, describe(res))); f != nil {
 				return nontrivial, keys(lab), f
 			}
 		}
 	}
-	if lp != nil && !lab["step-refused"] {
-		if f := lp.reapply(h, "end of history"); f != nil {
-			return nontrivial, keys(lab), f
-		}
-	}
+
 	for _, p := range c.Palette {
 		if strings.ContainsAny(p, "/_:=[] .*") {
 			lab["separator-in-key"] = true
